@@ -25,26 +25,67 @@ Proof.
     + intros H. split; [apply H; lia|]. intros k Hk. apply H. lia.
 Qed.
 
-Lemma range_ok_spec : forall ok, page_ok ok -> forall m a z,
+(* [ok] holds on mapped pages only *)
+Definition ok_mapped (ok : memory -> Z -> bool) : Prop :=
+  forall m x, ok m x = true -> In (x / PAGE) (map fst (m_pages m)).
+
+Lemma aget_in_keys : forall {A} (l : list (Z * A)) k, aget k l <> None -> In k (map fst l).
+Proof.
+  intros A l k. induction l as [|[k' v] t IH]; cbn [aget map fst]; intros H; [congruence|].
+  destruct (k' =? k) eqn:E; [left; lia|right; apply IH; assumption].
+Qed.
+
+Lemma readable_ok_mapped : ok_mapped readable.
+Proof.
+  intros m x H. apply aget_in_keys. apply readable_mapped in H. unfold mapped, get_page in H.
+  destruct (aget (x / PAGE) (m_pages m)); [discriminate|discriminate H].
+Qed.
+
+Lemma writable_ok_mapped : ok_mapped writable.
+Proof.
+  intros m x H. apply aget_in_keys. apply writable_mapped in H. unfold mapped, get_page in H.
+  destruct (aget (x / PAGE) (m_pages m)); [discriminate|discriminate H].
+Qed.
+
+(* pigeonhole: n distinct pages that are all [ok] are n mapped pages *)
+Lemma range_count_le : forall ok, ok_mapped ok -> forall m pg n,
+  (forall k, pg <= k < pg + Z.of_nat n -> ok m (PAGE * k) = true) -> (n <= length (m_pages m))%nat.
+Proof.
+  intros ok Hm m pg n H.
+  assert (I : incl (map (fun i => pg + Z.of_nat i) (seq 0 n)) (map fst (m_pages m))).
+  { intros x Hx. apply in_map_iff in Hx. destruct Hx as [i [<- Hi]]. apply in_seq in Hi.
+    pose proof (Hm m (PAGE * (pg + Z.of_nat i)) (H (pg + Z.of_nat i) ltac:(lia))) as Q.
+    replace (PAGE * (pg + Z.of_nat i) / PAGE) with (pg + Z.of_nat i) in Q by (unfold PAGE; lia). exact Q. }
+  assert (N : NoDup (map (fun i => pg + Z.of_nat i) (seq 0 n))).
+  { apply NoDup_map_inj_in; [|apply seq_NoDup]. intros; lia. }
+  pose proof (NoDup_incl_length N I) as Len. rewrite !map_length, seq_length in Len. exact Len.
+Qed.
+
+Lemma range_ok_spec : forall ok, page_ok ok -> ok_mapped ok -> forall m a z,
   range_ok ok m a z = true <-> range_prop ok m a z.
 Proof.
-  intros ok Hok m a z. unfold range_ok, range_prop.
+  intros ok Hok Hmp m a z. unfold range_ok, range_prop.
   destruct (z <=? 0) eqn:E.
   - split; [intros _; left; lia|reflexivity].
-  - rewrite andb_true_iff, pages_all_spec. split.
-    + intros [A B]. right. split; [lia|]. intros x Hx.
+  - cbv zeta. rewrite !andb_true_iff, pages_all_spec. split.
+    + intros [[A _] B]. right. split; [lia|]. intros x Hx.
       rewrite (Hok m x (PAGE * (x / PAGE))) by (unfold PAGE; lia).
       apply B. unfold PAGE; lia.
-    + intros [H|[A B]]; [lia|]. split; [lia|]. intros k Hk.
-      rewrite (Hok m (PAGE * k) (Z.max a (PAGE * k))) by (unfold PAGE in *; lia).
-      apply B. unfold PAGE in *; lia.
+    + intros [H|[A B]]; [lia|].
+      assert (P : forall k, a / PAGE <= k < a / PAGE + Z.of_nat (Z.to_nat ((a + z - 1) / PAGE - a / PAGE + 1)) ->
+                            ok m (PAGE * k) = true).
+      { intros k Hk.
+        rewrite (Hok m (PAGE * k) (Z.max a (PAGE * k))) by (unfold PAGE in *; lia).
+        apply B. unfold PAGE in *; lia. }
+      split; [split; [lia|]|exact P].
+      pose proof (range_count_le ok Hmp m _ _ P) as L. unfold PAGE in *; lia.
 Qed.
 
 Lemma range_ok_readable : range_ok_readable_stmt.
-Proof. intros m a z _. apply range_ok_spec. exact readable_page_ok. Qed.
+Proof. intros m a z _. apply range_ok_spec; [exact readable_page_ok|exact readable_ok_mapped]. Qed.
 
 Lemma range_ok_writable : range_ok_writable_stmt.
-Proof. intros m a z _. apply range_ok_spec. exact writable_page_ok. Qed.
+Proof. intros m a z _. apply range_ok_spec; [exact writable_page_ok|exact writable_ok_mapped]. Qed.
 
 (* a failed page test names a page *)
 Lemma pages_all_false : forall ok m n pg, pages_all ok m pg n = false ->
@@ -69,12 +110,6 @@ Proof.
       * intros k Hk. destruct (Z.eq_dec k n) as [->|Hne]; [congruence|]. apply K. lia.
       * intros H. apply F. lia.
     + split; [lia|]. split; [intros k Hk; lia|intros _; assumption].
-Qed.
-
-Lemma aget_in_keys : forall {A} (l : list (Z * A)) k, aget k l <> None -> In k (map fst l).
-Proof.
-  intros A l k. induction l as [|[k' v] t IH]; cbn [aget map fst]; intros H; [congruence|].
-  destruct (k' =? k) eqn:E; [left; lia|right; apply IH; assumption].
 Qed.
 
 Lemma fresh_id_minimal : fresh_id_minimal_stmt.
@@ -153,7 +188,7 @@ Qed.
 Lemma range_writable_mapped : forall m a z, range_ok writable m a z = true ->
   forall x, a <= x < a + z -> mapped m (x / PAGE) = true.
 Proof.
-  intros m a z H x Hx. apply (range_ok_spec _ writable_page_ok) in H.
+  intros m a z H x Hx. apply (range_ok_spec _ writable_page_ok writable_ok_mapped) in H.
   destruct H as [H|[_ H]]; [lia|]. apply writable_mapped. apply H. assumption.
 Qed.
 
@@ -290,21 +325,36 @@ Proof.
     replace (Z.of_nat (S (Z.to_nat (Z.log2 g)))) with (Z.succ (Z.log2 g)) by lia. lia.
 Qed.
 
+Lemma past_end_is_step : forall p pc s, code_len p <= pc -> step p pc s = past_end_step pc s.
+Proof.
+  intros p pc s H. unfold past_end_step. destruct (gas s <? 1) eqn:G.
+  - apply step_oog. lia.
+  - apply step_past_end; [assumption|lia].
+Qed.
+
+Lemma past_end_exit : forall pc s, fst (fst (past_end_step pc s)) <> Continue.
+Proof. intros pc s. unfold past_end_step. destruct (gas s <? 1); cbn [fst]; discriminate. Qed.
+
 Lemma inner_run_is_run : inner_run_is_run_stmt.
 Proof.
-  intros p pc s.
-  assert (E : inner_run p pc s = run (2 ^ S (Z.to_nat (Z.log2 (gas s)))) p pc s).
-  { unfold inner_run. rewrite run_pow_runc, run_runc. reflexivity. }
-  pose proof (run_terminates (Z.to_nat (gas s)) p pc s ltac:(lia)) as T.
-  destruct (run (S (Z.to_nat (gas s))) p pc s) as [r|] eqn:R; [|congruence].
-  rewrite E. rewrite (run_mono _ _ _ _ _ R _ (pow_fuel_enough (gas s))).
-  split; [reflexivity|discriminate].
+  intros p pc s. unfold inner_run. destruct (code_len p <=? pc) eqn:PE.
+  - split; [|discriminate]. cbn [run]. rewrite (past_end_is_step p pc s) by lia.
+    pose proof (past_end_exit pc s) as NE.
+    destruct (past_end_step pc s) as [[e pc1] s1]. cbn [fst] in NE. destruct e; try reflexivity. congruence.
+  - assert (E : inner_run_log p pc s = run (2 ^ S (Z.to_nat (Z.log2 (gas s)))) p pc s).
+    { unfold inner_run_log. rewrite run_pow_runc, run_runc. reflexivity. }
+    pose proof (run_terminates (Z.to_nat (gas s)) p pc s ltac:(lia)) as T.
+    destruct (run (S (Z.to_nat (gas s))) p pc s) as [r|] eqn:R; [|congruence].
+    rewrite E. rewrite (run_mono _ _ _ _ _ R _ (pow_fuel_enough (gas s))).
+    split; [reflexivity|discriminate].
 Qed.
 
 Lemma inner_run_exit : forall p pc s e pc' s', inner_run p pc s = Some (e, pc', s') -> e <> Continue.
 Proof.
-  intros p pc s e pc' s' H. unfold inner_run in H.
-  destruct (run_pow _ p pc s) as [[e1 pc1] s1]. destruct e1; inversion H; subst; discriminate.
+  intros p pc s e pc' s' H. unfold inner_run in H. destruct (code_len p <=? pc).
+  - pose proof (past_end_exit pc s) as NE. inversion H as [H1]. rewrite H1 in NE. exact NE.
+  - unfold inner_run_log in H.
+    destruct (run_pow _ p pc s) as [[e1 pc1] s1]. destruct e1; inversion H; subst; discriminate.
 Qed.
 
 (* ---- the number of registers never changes ---- *)
@@ -425,7 +475,7 @@ Ltac open_call H :=
   unfold hostcall in H;
   match type of H with context [?g <? 0] => destruct (g <? 0) eqn:?E; [lia|] end.
 
-Lemma machine : machine_stmt.
+Lemma machine_call : machine_stmt.
 Proof.
   intros s e s' G H. open_call H. injection H as H. unfold call_machine in H.
   cbv zeta. unfold arg. split; intros R; rewrite R in H; cbn [negb] in H.
@@ -436,7 +486,7 @@ Proof.
     + unfold ret7 in H. injection H as <- <-. split; [reflexivity|fin].
 Qed.
 
-Lemma expunge : expunge_stmt.
+Lemma expunge_call : expunge_stmt.
 Proof.
   intros s e s' G H. open_call H. injection H as H. unfold call_expunge in H.
   cbv zeta. unfold arg. destruct (aget _ (o_mach s)) as [mc|].
@@ -448,7 +498,7 @@ Qed.
 Lemma readable_false : forall m x, readable m x = false <-> acc_at m x = AccNone.
 Proof. intros. unfold readable. destruct (acc_at m x); split; congruence. Qed.
 
-Lemma pages : pages_stmt.
+Lemma pages_call : pages_stmt.
 Proof.
   intros s e s' G H. open_call H. injection H as H. unfold call_pages in H.
   cbv zeta. unfold arg. intros Hp Hc Hr.
@@ -492,7 +542,7 @@ Proof.
   - intros x Hx. apply R. lia.
 Qed.
 
-Lemma peek : peek_stmt.
+Lemma peek_call : peek_stmt.
 Proof.
   intros s e s' G H. open_call H. injection H as H. unfold call_peek in H.
   cbv zeta. unfold arg. intros Ho Ha. split; intros R; rewrite R in H; cbn [negb] in H.
@@ -505,7 +555,7 @@ Proof.
     + unfold ret7 in H. injection H as <- <-. split; [reflexivity|fin].
 Qed.
 
-Lemma poke : poke_stmt.
+Lemma poke_call : poke_stmt.
 Proof.
   intros s e s' G H. open_call H. injection H as H. unfold call_poke in H.
   cbv zeta. unfold arg. intros Ho Ha. split; intros R; rewrite R in H; cbn [negb] in H.
@@ -541,7 +591,7 @@ Proof.
   apply range_writable_mapped. assumption.
 Qed.
 
-Lemma invoke : invoke_stmt.
+Lemma invoke_call : invoke_stmt.
 Proof.
   intros s e s' G H. open_call H. unfold call_invoke in H.
   cbv zeta. unfold arg. intros Ho. split; intros R; rewrite R in H; cbn [negb] in H.
@@ -645,10 +695,17 @@ Proof.
   rewrite H, IH. reflexivity.
 Qed.
 
-Lemma range_ok_ext : forall ok m1 m2, (forall x, ok m1 x = ok m2 x) ->
+Lemma range_ok_ext : forall ok, page_ok ok -> ok_mapped ok -> forall m1 m2, (forall x, ok m1 x = ok m2 x) ->
   forall a z, range_ok ok m1 a z = range_ok ok m2 a z.
 Proof.
-  intros ok m1 m2 H a z. unfold range_ok. rewrite (pages_all_ext ok m1 m2 H). reflexivity.
+  intros ok Hp Hm m1 m2 H a z.
+  assert (Q : range_prop ok m1 a z <-> range_prop ok m2 a z).
+  { unfold range_prop. split; (intros [L|[A B]]; [left; assumption|right; split; [assumption|]]);
+      intros x Hx; [rewrite <- H|rewrite H]; apply B; assumption. }
+  pose proof (range_ok_spec ok Hp Hm m1 a z) as S1. pose proof (range_ok_spec ok Hp Hm m2 a z) as S2.
+  destruct (range_ok ok m1 a z), (range_ok ok m2 a z); try reflexivity.
+  - symmetry. apply S2, Q, S1. reflexivity.
+  - apply S1, Q, S2. reflexivity.
 Qed.
 
 Lemma readable_ext : forall m1 m2, same_access m1 m2 -> forall x, readable m1 x = readable m2 x.
@@ -672,7 +729,7 @@ Lemma wr_range_both : forall m1 m2 o z bs, same_access m1 m2 -> range_ok writabl
 Proof.
   intros m1 m2 o z bs SA W L.
   assert (W2 : range_ok writable m2 o z = true)
-    by (rewrite <- (range_ok_ext writable m1 m2 (writable_ext _ _ SA)); assumption).
+    by (rewrite <- (range_ok_ext writable writable_page_ok writable_ok_mapped m1 m2 (writable_ext _ _ SA)); assumption).
   destruct (wr_range_frame bs m1 o) as (R1 & Ac1 & _). destruct (wr_range_frame bs m2 o) as (R2 & Ac2 & _).
   split.
   - intros x. rewrite Ac1, Ac2. apply SA.
@@ -692,8 +749,8 @@ Proof.
   destruct (o_gas s - 10 <? 0).
   { injection H1 as <- <-. injection H2 as <- <-. unfold upd; cbn [o_regs o_gas o_mem o_mach].
     repeat split; auto. }
-  pose proof (range_ok_ext readable _ _ (readable_ext _ _ SA)) as RE.
-  pose proof (range_ok_ext writable _ _ (writable_ext _ _ SA)) as WE.
+  pose proof (range_ok_ext readable readable_page_ok readable_ok_mapped _ _ (readable_ext _ _ SA)) as RE.
+  pose proof (range_ok_ext writable writable_page_ok writable_ok_mapped _ _ (writable_ext _ _ SA)) as WE.
   destruct c; cbn [read_window] in AG; unfold arg in *.
   - (* machine *) injection H1 as H1. injection H2 as H2. unfold call_machine in H1, H2.
     cbn [o_regs o_gas o_mem o_mach] in H2. rewrite <- RE in H2.
@@ -757,8 +814,3 @@ Proof.
     destruct (aget _ _) as [mc|]; [|unfold ret7 in H1, H2; cbn [o_regs o_gas o_mem o_mach] in H2];
       injection H1 as <- <-; injection H2 as <- <-; unfold upd; cbn [o_regs o_gas o_mem o_mach]; repeat split; auto.
 Qed.
-
-(* Kept last: from here on the bare name [invoke_regs] is this lemma; the model function is
-   [InnerVm.invoke_regs] (likewise [machine] / [invoke] above shadow [InnerVm.machine] / [PvmRun.invoke]). *)
-Lemma invoke_regs : invoke_regs_stmt.
-Proof. exact invoke_regs_ok. Qed.
